@@ -49,7 +49,7 @@ func TestPropSpoolOutage(t *testing.T) {
 		flush := time.Duration(rapid.SampledFrom([]int{5, 20, 50}).Draw(t, "flushMs")) * time.Millisecond
 		o := dh.Opts{Route: fmt.Sprintf("c07r%d", caseSeq%4), Spool: true, Flush: flush, Reconn: reconn,
 			ConnBuf: rapid.SampledFrom([]int{1, 10, 100, 1000, 30000}).Draw(t, "connbuf"), IoBuf: rapid.SampledFrom([]int{256, 4096, 65536}).Draw(t, "iobuf"),
-			SpoolBuf: rapid.SampledFrom([]int{10, 100, 10000}).Draw(t, "spoolbuf"), SpoolMaxBytes: int64(rapid.SampledFrom([]int{500, 4000, 1 << 20}).Draw(t, "maxbytesperfile")),
+			SpoolBuf: rapid.SampledFrom([]int{10, 100, 10000}).Draw(t, "spoolbuf"), SpoolMaxBytes: int64(rapid.SampledFrom([]int{100, 500, 4000, 1 << 20}).Draw(t, "maxbytesperfile")),
 			SpoolSyncEvery: int64(rapid.SampledFrom([]int{1, 10, 10000}).Draw(t, "syncevery")), SpoolSyncPeriod: time.Duration(rapid.SampledFrom([]int{10, 1000}).Draw(t, "syncperiodMs")) * time.Millisecond,
 			SpoolSleep: time.Duration(rapid.SampledFrom([]int{1, 50, 500}).Draw(t, "spoolsleepUs")) * time.Microsecond, Unspool: time.Duration(rapid.SampledFrom([]int{1, 10, 200}).Draw(t, "unspoolsleepUs")) * time.Microsecond}
 		pace := rapid.SampledFrom([]int{1, 3, 8}).Draw(t, "paceEvery") // a short pause every `pace` lines (an un-paced burst overflows the 10-slot spool inbox into counted drops)
@@ -96,7 +96,7 @@ func TestPropSpoolOutage(t *testing.T) {
 		var sched []string
 		downLines := 0
 		sluggish := 0
-		padMul := rapid.SampledFrom([]int{1, 1, 8}).Draw(t, "padMul") // line length up to ~60 or ~320 bytes
+		padMul := rapid.SampledFrom([]int{1, 1, 8, 20}).Draw(t, "padMul") // line length up to ~60, ~320 or ~750 bytes (longer than the smallest spool segment)
 		for pi, p := range phases {
 			if p.up != isUp {
 				if p.up {
